@@ -119,6 +119,15 @@ func (n *ObjectNode) AddChild(key ObjectNodeKey, child Node) {
 	n.addChild(child)
 }
 
+// AddInheritedChild adds a child which belongs to the object of another type
+// (the "allOf" rule). The child is shared, not copied: it may be in use by other,
+// already compiled schemas at this moment, so it is not modified (its parent
+// stays the object it was declared in).
+func (n *ObjectNode) AddInheritedChild(key ObjectNodeKey, child Node) {
+	n.addKey(key.Key, key.IsShortcut, key.Lex) // can panic
+	n.children = append(n.children, child)
+}
+
 func (n ObjectNode) Key(index int) ObjectNodeKey {
 	if kv, ok := n.keys.Find(index); ok {
 		return kv
